@@ -723,6 +723,9 @@ func (p *path) search(toks tokens, verb string) (*method, params, error) {
 		}
 	}
 
+	if toks[0].typ != tokenSlash {
+		return nil, nil, errNotFound // variables only start at a path segment
+	}
 	for _, v := range p.variables {
 		l := v.index(toks[1:]) + 1 // bump off /
 		if l == 0 {
